@@ -143,8 +143,93 @@ func genC12(c *Ctx) {
 
 // c12Handler fetches generated subtitle segments through the real handler and checks number / decode time / duration
 // against the reference video segment, the cue list against the property, the text, and the wvtt sample tiling.
+// c12Mpd: "the subtitle AdaptationSet in the MPD mirrors the video timeline in milliseconds": for every asset and MPD
+// type the generated stpp / wvtt AdaptationSets carry timescale 1000, the video's startNumber, and the video's
+// duration / timeline entries converted to milliseconds.
+func c12Mpd(c *Ctx) {
+	for ai := range vAssets {
+		a := &vAssets[ai]
+		ref := refRepOf(a)
+		if ref == nil || ref.ContentType != "video" || len(a.MPDs) == 0 {
+			continue
+		}
+		for _, cf := range []cfgVar{mkCfg(0, 60, 0, 0, "n"), mkCfg(61, 30, 5, 0, "n"), mkCfg(0, 30, 0, 0, "tlt"), mkCfg(61, 60, 3, 0, "tln")} {
+			cfgS := strings.TrimPrefix(cf.s+",timesubsstpp=en,timesubswvtt=sv", "-,")
+			for _, now := range []int64{int64(cf.startS)*1000 + int64(a.LoopDurMS)*3 + 1700, int64(cf.startS)*1000 + 1790000000000%int64(a.LoopDurMS) + 100*int64(a.LoopDurMS) + 333} {
+				url := mpdURL(a.AssetPath, cfgS, a.MPDs[0], strconv.FormatInt(now, 10))
+				res := doLive("GET", url)
+				m, err := parseMPD(res.body)
+				if res.code != 200 || err != nil || len(m.Periods) != 1 {
+					continue
+				}
+				rp := []string{"# GET " + url}
+				var vst *xSegTemplate
+				for i := range m.Periods[0].Sets {
+					as := &m.Periods[0].Sets[i]
+					if asContentType(as) == "video" && as.SegmentTemplate != nil && len(as.Representations) > 0 && as.Representations[0].ID == ref.ID {
+						vst = as.SegmentTemplate
+					}
+				}
+				if vst == nil || vst.Timescale == nil && vst.Duration != nil && false {
+					continue
+				}
+				vts := uint64(1)
+				if vst.Timescale != nil {
+					vts = *vst.Timescale
+				}
+				toMS := func(x uint64) (uint64, bool) { return x * 1000 / vts, x*1000%vts == 0 }
+				for i := range m.Periods[0].Sets {
+					as := &m.Periods[0].Sets[i]
+					if len(as.Representations) == 0 || as.SegmentTemplate == nil {
+						continue
+					}
+					id := as.Representations[0].ID
+					if !strings.HasPrefix(id, "timestpp-") && !strings.HasPrefix(id, "timewvtt-") {
+						continue
+					}
+					st := as.SegmentTemplate
+					c.Count("subs-mpd-sets")
+					if st.Timescale == nil || *st.Timescale != 1000 {
+						c.Violate("subs-mpd", id+": subtitle SegmentTemplate@timescale is not 1000", rp, nil)
+						continue
+					}
+					if (st.StartNumber == nil) != (vst.StartNumber == nil) || (st.StartNumber != nil && *st.StartNumber != *vst.StartNumber) {
+						c.Violate("subs-mpd", id+": startNumber differs from the video AdaptationSet", rp, nil)
+						continue
+					}
+					if (st.Duration == nil) != (vst.Duration == nil) {
+						c.Violate("subs-mpd", id+": @duration present in one of video / subtitle templates only", rp, nil)
+						continue
+					}
+					if vst.Duration != nil {
+						want, exact := toMS(*vst.Duration)
+						if *st.Duration != want && (exact || *st.Duration != want+1) {
+							c.Violate("subs-mpd", fmt.Sprintf("%s: @duration %d ms, the video segment duration is %d/%d s = %d ms", id, *st.Duration, *vst.Duration, vts, want), rp, nil)
+						}
+						continue
+					}
+					vtl, stl := expandTL(vst), expandTL(st)
+					if len(vtl) != len(stl) {
+						c.Violate("subs-mpd", fmt.Sprintf("%s: %d timeline entries, the video has %d", id, len(stl), len(vtl)), rp, nil)
+						continue
+					}
+					for j := range vtl {
+						wt, e1 := toMS(vtl[j][0])
+						wd, e2 := toMS(vtl[j][1])
+						if (e1 && stl[j][0] != wt) || (e1 && e2 && stl[j][1] != wd) || stl[j][0]+1 < wt || stl[j][0] > wt+1 {
+							c.Violate("subs-mpd", fmt.Sprintf("%s entry %d: (t=%d,d=%d) ms, video entry (t=%d,d=%d)/%d is (%d,%d) ms", id, j, stl[j][0], stl[j][1], vtl[j][0], vtl[j][1], vts, wt, wd), rp, nil)
+							break
+						}
+					}
+				}
+			}
+		}
+	}
+}
+
 func c12Handler(c *Ctx) {
 	getServer()
+	c12Mpd(c)
 	r := c.Rng
 	for ai := range vAssets {
 		a := &vAssets[ai]
